@@ -60,7 +60,8 @@ pub fn run(ctx: &mut Ctx, _replay: Option<&[String]>) {
     // ---------------------------------------------------------------- ccsds
     for rate in ["1/2", "2/3", "4/5", "3/4", ""] {
         for bs in ["1024", "4096", "16384", "2048", "0"] {
-            if bs == "16384" && !ctx.thorough { continue; }
+            // the largest block size: all rates in the thorough tier, the smallest of the three matrices (rate 4/5) in the quick tier
+            if bs == "16384" && !ctx.thorough && rate != "4/5" { continue; }
             let o = run_bin(&bin, &["ccsds", "--rate", rate, "--block-size", bs]);
             let out = if o.status_nonzero || o.stdout.is_empty() { fail_tokens(&o) } else {
                 let mut found = "unknown-output".to_string();
@@ -191,6 +192,9 @@ pub fn run(ctx: &mut Ctx, _replay: Option<&[String]>) {
             &[if pattern.is_some() { "encode-punctured" } else { "encode-unpunctured" }, if extra > 0 { "trailing-partial-word" } else { "whole-words-only" }]);
     }
     // ---------------------------------------------------------------- invalid inputs: non-zero exit, message, no panic
+    // 3 columns x 2 rows, column 3 names row 3 (> nrows, <= ncols): must be a clean error (defect D2)
+    let rowidx = format!("{}/rowidx.alist", dir);
+    std::fs::write(&rowidx, "3 2\n1 1\n1 1 1\n1 1\n1\n2\n3\n1\n2\n").unwrap();
     let good = format!("{}/good.alist", dir);
     std::fs::write(&good, crate::c13::test_matrix().alist()).unwrap();
     let bad = format!("{}/bad.alist", dir);
@@ -204,6 +208,8 @@ pub fn run(ctx: &mut Ctx, _replay: Option<&[String]>) {
         ("systematic-missing-file", vec!["systematic", "/nonexistent.alist"]),
         ("systematic-row-index-out-of-range", vec!["systematic", &bad]),
         ("systematic-junk", vec!["systematic", &junk]),
+        ("systematic-alist-row-index-between-nrows-and-ncols", vec!["systematic", &rowidx]),
+        ("encode-alist-row-index-between-nrows-and-ncols", vec!["encode", &rowidx, &inp, &outp]),
         ("encode-bad-pattern", vec!["encode", &good, &inp, &outp, "--puncturing", "1,,0"]),
         ("encode-pattern-item-with-leading-zero", vec!["encode", &good, &inp, &outp, "--puncturing", "01,1,1,0"]),
         ("encode-pattern-item-with-plus-sign", vec!["encode", &good, &inp, &outp, "--puncturing", "+1,1,1,0"]),
